@@ -855,7 +855,19 @@ inline Root gen_game(Tape& t, Report* rep, int maxPlies, const Pos* forcedStart 
         --phaseLeft;
         int idx = -1;
         const ref::Move* lastOwn = g.moves.size() >= 2 ? &g.moves[g.moves.size() - 2] : nullptr;
-        if (phase == 1 && lastOwn)
+        // a double pawn push answered at once by castling (the ep square must vanish although no "ordinary" move was played),
+        // followed by a shuffle so that the position after castling can recur
+        if (g.cur.ep >= 0 && t.chance(1, 2))
+        {
+            for (size_t k = 0; k < ms.size(); ++k)
+                if (ref::is_castle(g.cur, ms[k]) && (idx < 0 || t.flag())) idx = int(k);
+            if (idx >= 0)
+            {
+                phase = 1;
+                phaseLeft = 6 + int(t.choose(8));
+            }
+        }
+        if (idx < 0 && phase == 1 && lastOwn)
         {
             for (size_t k = 0; k < ms.size(); ++k)
                 if (ms[k].from == lastOwn->to && ms[k].to == lastOwn->from && !ms[k].promo &&
